@@ -695,7 +695,47 @@ class Deep(Suite):
 
 
 
-SUITES = [Histories(), PoolEnum(), NestedHistories(), Deep()]
+class Wide(Suite):
+    """Counts beyond the moderate range: 40-1200 sibling routes under one parent (literals, literals next to one field
+    sibling, converter fields told apart by their literal prefixes), looked up for the first, middle, last and a missing
+    sibling; and 300 routes added one by one with a lookup after every 50th."""
+
+    name = 'wide'
+    exhaustive = True
+    budget = {'quick': 1, 'thorough': 1}
+    cap = 200
+
+    def cases(self, tier):
+        for n in ((40, 257, 600) if tier == 'quick' else (40, 63, 64, 65, 255, 256, 257, 600, 1200)):
+            for shape in ('literals', 'literals+field', 'prefixed_fields', 'incremental'):
+                yield {'n': n, 'shape': shape}
+
+    def run(self, case):
+        n, shape = case['n'], case['shape']
+        ops = []
+        if shape == 'prefixed_fields':
+            temps = ['/w/p%dx{v:int}' % i for i in range(n)]
+            probes = ['/w/p0x7', '/w/p%dx42' % (n // 2), '/w/p%dx1' % (n - 1), '/w/p%dx1' % n, '/w/p1xx', '/w/p%dx' % (n - 1)]
+        else:
+            temps = ['/w/s%d' % i for i in range(n)]
+            if shape == 'literals+field':
+                temps.insert(n // 3, '/w/{other}')
+            probes = ['/w/s0', '/w/s%d' % (n // 2), '/w/s%d' % (n - 1), '/w/s%d' % n, '/w/s', '/w/S0', '/w/s%d/x' % (n - 1)]
+        for i, t in enumerate(temps):
+            ops.append(['add', t, False])
+            if shape == 'incremental' and i % 50 == 49:
+                ops.extend(['find', p] for p in ('/w/s%d' % i, '/w/s%d' % (i + 1), '/w/s0'))
+        ops.extend(['find', p] for p in probes)
+        try:
+            info, _n = run_history({'ops': ops}, self.cap)
+        except Violation as v:
+            d = v.detail
+            raise Violation(v.kind, '%s ... %s\n  compact case=%r' % (d[:200], d[-400:], case))
+        return Info(True, ['shape:' + shape, 'siblings:%s' % ('<=64' if n <= 64 else '<=256' if n <= 256 else '>256')])
+
+
+
+SUITES = [Histories(), PoolEnum(), NestedHistories(), Deep(), Wide()]
 
 
 def _known_f34(suite_name, case, violation):
